@@ -175,6 +175,7 @@ func streamC21(h *H) {
 		// ---- restore into a fresh directory; some files pre-exist with identical content
 		// (they are then only tracked as "metadata only" and VerifyFiles skips them)
 		dst := MkTemp("c21-")
+		linkDir := MkTemp("c21l-")
 		pre := map[int]bool{}
 		for i, f := range files {
 			if h.Intn(5) == 0 && f.size == uint64(len(f.content())) {
@@ -259,6 +260,19 @@ func streamC21(h *H) {
 					cur[pos] ^= byte(1 + h.Intn(255))
 					write(cur)
 					labels = append(labels, "flip")
+					// a same-size change is the hardest to notice: also keep the restored mtime
+					// (nothing but hashing can tell) and/or give the file a second hard link
+					if h.Intn(3) == 0 {
+						_ = os.Chtimes(p, st.ModTime(), st.ModTime())
+						labels = append(labels, "mtime-kept")
+					}
+					if h.Intn(4) == 0 {
+						hl := filepath.Join(linkDir, Itoa(ti)+"-"+Itoa(k))
+						if os.Link(p, hl) == nil {
+							undos = append(undos, func() { _ = os.Remove(hl) })
+							labels = append(labels, "hardlinked")
+						}
+					}
 				case op == 4 && len(cur) > 0:
 					write(cur[:len(cur)-1-h.Intn(min(len(cur), 3))])
 					labels = append(labels, "truncate")
@@ -354,5 +368,6 @@ func streamC21(h *H) {
 			}
 		}
 		_ = os.RemoveAll(dst)
+		_ = os.RemoveAll(linkDir)
 	}
 }
